@@ -15,7 +15,7 @@ TAGS = [(r"^hash:", ["C10", "C11"])]
 COMMON = {"tags": TAGS, "props": ["C10", "C11", "C06"], "default_props": ["C10", "C11"], "mem_gb": 12}
 JOBS = [
     dict(COMMON, name="hash.update.u", files=["harness/h_hash.c", "stubs/hmon.c", "stubs/mem.c", HASH], defs=["WHICH=0"],
-         functions=[FN, "tinyjambu_hash_compress (static, inlined)"], loops=[UPD_LOOP], stub_unwind=18, unwind=18, timeout=1800, cost=300,
+         functions=[FN, "tinyjambu_hash_compress (static, inlined)"], loops=[UPD_LOOP], stub_unwind=18, unwind=18, timeout=1800, cost=300, solver="kissat-unsat",
          allow_no_body=["tinyjambu_clean"], reach_must=["TJV_REACH after", "hash permutation stub reached"],
          unbounded="inlen <= 2^40 (loop contract), arbitrary valid prior state (any posn < 16, any L, R, buffered bytes), all data"),
     dict(COMMON, name="hash.oneshot.u", files=["harness/h_hash.c", "stubs/hmon.c", "stubs/mem.c", HASH, CLEAN_SRC], defs=["WHICH=4", "TJV_GHOST_C"],
